@@ -22,7 +22,7 @@ FAULTS = ["-1", "-1'", "-1h", "-2147483648'", "-2147483647'", "-2147483649'", "4
           "x", "0x1f", "0b1", "1.0", "1e3", "1''", "1'h", "'", "h", "None", ""]
 LENIENT = ["+1", " 1", "1 ", "1_0", "١", "01", "+1'", "1 '"]
 BASES = ["m/0/1'/2", "m/44'/0'/0'/0/5", "M/0/1", "m/1", "m/0/1'/2/3/4/5/6'", "M/0/1/2/3/4/5"]
-ROOTS_BAD = ["", "x", "n", "mm", "m'", "/m", "m ", " m"]
+ROOTS_BAD = ["", "x", "n", "mm", "m'", "/m", "m ", " m", "m0", "M0", "m44'", "mM", "Mm", "m.", "m\t"]
 
 MASTER = {"k": 0x1F1E1D1C1B1A191817161514131211100F0E0D0C0B0A09080706050403020100 % hd.N, "chain": "5a" * 32}
 
